@@ -244,6 +244,14 @@ func runC08(cfg runCfg, res *Result) error {
 		if rp.Kind == "volume" {
 			return c08VolumeReplay(cfg, res, srv, mdl, b)
 		}
+		if rp.Kind == "snapshot" {
+			for i := 0; i < 3 && len(res.Mismatches) == 0; i++ {
+				if err := c08Snapshot(cfg, res, srv, i); err != nil {
+					return err
+				}
+			}
+			return nil
+		}
 		if rp.Kind == "conditional" {
 			for i := 0; i < 3 && len(res.Mismatches) == 0; i++ {
 				if err := c08Conditional(cfg, res, srv, i); err != nil {
